@@ -78,7 +78,7 @@ CHECKS = {
   technique="runtime fault injection with virtual time: the instrumented in-process connection injects EOF / read error / stall / write error at every byte offset of live client<->server exchanges; per-call return tracking, goroutine census of package imapclient after Close, and a delivered-prefix oracle for 'success implies fully received completion'; race detector on",
   text="18 scenarios covering every client command (12 against the real server + in-memory backend, 6 against a scripted server with unusual but valid transcripts: 40..70 items per FETCH, commands pipelined behind LOGOUT, 300 EXPUNGE responses with a slow consumer that calls State()/Mailbox(), unread BINARY sections, Move on a peer without MOVE = COPY+STORE+EXPUNGE whose success needs all three completions) x every server->client offset x {EOF, reset, stall} and every client->server offset x {write error}. Liveness is decided in logical time: after the fault all I/O completes at once, read deadlines expire at once, a deadline-less stall is ended by Client.Close once the client is parked.",
   design_ref="DESIGN.md §3 C10",
-  note="Backstops of 25-30 s are orders of magnitude above the millisecond run time; the completion oracle is skipped for the STARTTLS scenario (ciphertext)."),
+  note="Backstops of 30-60 s are orders of magnitude above the millisecond run time; the completion oracle is skipped for the STARTTLS scenario (ciphertext)."),
 
  "C11": dict(
   category="exploration",
